@@ -33,3 +33,18 @@ contract("CircuitCompositeOperation.apply_flatten_to_self", params=dict(self=REF
                     "fresh(flatten_circuit_graph)",
                     "forall_int(0, _i, lambda j: exists(flatten_circuit_graph.get_node_iterator(), lambda n: n.operation is _xs[j]))",
                     "forall(flatten_circuit_graph.get_node_iterator(), lambda n: exists_int(0, _i, lambda j: n.operation is _xs[j]))"]})
+
+# ---------------------------------------------------------------- DeclarativeCircuit.flatten (the public entry point)
+DC = REF("DeclarativeCircuit")
+S0 = "old(self._structure)"
+contract("DeclarativeCircuit.flatten", params=dict(self=DC), returns=DC, props=P, inst_depth=2, fresh_result=True,
+         modifies=REL_FIELDS + ["graph", "CircuitCompositeOperation._circuit_graph", "DeclarativeCircuit._structure", "DeclarativeCircuit._added_operations"],
+         requires=["self._structure is not None",
+                   "forall_int(0, len(self._structure.listing), lambda a: forall_int(0, a, lambda b: self._structure.listing[a] is not self._structure.listing[b]))",
+                   "forall(self._structure.listing, lambda o: not isinstance(o, CircuitCompositeOperation))"],
+         ensures=["fresh(result)", f"result._structure is {S0}", "seq_is(result._added_operations, old(self._added_operations))",
+                  "result.nr_qubits == self.nr_qubits",
+                  # the shared structure has been flattened (apply_flatten_to_self's contract): exactly the listed leaf operations, no sub-circuit
+                  f"let({S0}, lambda s: len(s._circuit_graph.get_node_iterator()) == len(old(s.listing)) and "
+                  "forall(old(s.listing), lambda o: exists(s._circuit_graph.get_node_iterator(), lambda n: n.operation is o)) and "
+                  "forall(s._circuit_graph.get_node_iterator(), lambda n: not isinstance(n.operation, CircuitCompositeOperation)))"])
